@@ -34,7 +34,10 @@ def build_ops(keys, vals):
         for v in vals:
             ops += [("set", k, v), ("append", k, v), ("setdefault", k, v), ("update_map", k, v), ("update_pairs", k, v)]
         ops += [("del", k), ("poplist", k), ("pop", k), ("popd", k), ("setlist", k, ()), ("setlist", k, (vals[0],)),
-                ("setlist", k, (vals[1], vals[0])), ("update_kw", k, vals[0]), ("setdefault0", k)]  # setdefault0: setdefault(key) without a default (None, MutableMapping's contract)
+                ("setlist", k, (vals[1], vals[0])), ("update_kw", k, vals[0]), ("setdefault0", k)]
+        if isinstance(k, str) and k:
+            # update() with a positional argument AND keywords: the positional pairs first, then the keywords (dict.update's order)
+            ops += [("update_both", k, vals[0], keys[0] if isinstance(keys[0], str) and keys[0] else k, vals[1])]  # setdefault0: setdefault(key) without a default (None, MutableMapping's contract)
     ops += [("popitem",), ("clear",), ("update_multi",)]
     return ops
 
@@ -62,6 +65,8 @@ def apply_real(m, op):
             return m.update([(op[1], op[2])])
         if o == "update_kw":
             return m.update(**{op[1]: op[2]}) if isinstance(op[1], str) else m.update({op[1]: op[2]}.items())
+        if o == "update_both":
+            return m.update([(op[1], op[2])], **{op[3]: op[4]})
         if o == "update_multi":
             return m.update(MultiMapping([("a", 1), ("a", 2)]))
         if o == "del":
@@ -110,6 +115,16 @@ def check_step(model, real, op, ret):
         if ret is not None:
             return real, "unexpected-return"
         return real, assigned(model, k, op[2], real)
+    if o == "update_both":
+        k2, v2 = op[3], op[4]
+        if ret is not None:
+            return real, "unexpected-return"
+        rest = lambda lst: [p for p in lst if p[0] not in (k, k2)]  # noqa: E731
+        if rest(real) != rest(model):
+            return real, "other-keys-disturbed"
+        if k == k2:
+            return real, None if vals_of(real, k) == [v2] else "update-positional-and-keywords|keyword-does-not-win"
+        return real, None if vals_of(real, k) == [op[2]] and vals_of(real, k2) == [v2] else "update-positional-and-keywords|wrong-values"
     if o == "update_multi":
         return real, assigned(model, "a", 2, real)
     if o == "append":
@@ -281,6 +296,21 @@ def aliasing(ctx, pairs, rng):
     return case
 
 
+def many_pairs(ctx, n):
+    """a form / query with more than a thousand pairs is a mapping like any other"""
+    from baize.datastructures import FormData, MultiMapping, MutableMultiMapping, QueryParams
+    pairs = [("k%d" % (i % 700), "v%d" % i) for i in range(n)]
+    ctx.mon("many-pairs")
+    for name, cls in (("FormData", FormData), ("QueryParams", QueryParams), ("MultiMapping", MultiMapping), ("MutableMultiMapping", MutableMultiMapping)):
+        o = cls(list(pairs))
+        vp = views_problem(o, pairs, ["k0", "k1", "k699", "k299", "zz"])
+        if vp:
+            ctx.violation(f"immutable-view|{name}|{vp}|{n}-pairs", {"pairs": f"{n} pairs k<i mod 700>=v<i>"}, f"{len(o.multi_items())} items")
+    q = QueryParams(list(pairs))
+    if QueryParams(str(q)) != q or len(QueryParams(str(q)).multi_items()) != n:
+        ctx.violation(f"query-roundtrip|parse(str(q))!=q|{n}-pairs", {"pairs": f"{n} pairs"}, "")
+
+
 def built_from_nothing(ctx, rng):
     """mappings built with no argument (and from empty inputs), one after the other: what is put into one is not in the next"""
     from baize.datastructures import FormData, MultiMapping, MutableMultiMapping, QueryParams
@@ -385,6 +415,12 @@ QS_ALPHA = ["a", "b", "", " ", "+", "%", "&", "=", ";", "é", "中", "%41", "a b
 
 def run(ctx):
     rng = ctx.rng("c17")
+    if ctx.shard == 0:  # (before the class invariant is armed: it is quadratic in the number of pairs)
+        for n in (999, 1000, 1001, 1500, 3000):
+            many_pairs(ctx, n)
+            ctx.case(("many-pairs", n))
+    else:
+        ctx.mon("many-pairs", 0)
     ops = build_ops(K, V)
     ctx.extra["operations"] = len(ops)
     maxlen = 3 if ctx.quick else 4
